@@ -632,9 +632,92 @@ def decide(AN, cfg, cmd, cwd):
         return "exn:" + type(e).__name__
 
 
-def run_env(out, H, AN, cfg, scratch_root, tier, rng, replay=None, model_classify=None, workers=8):
-    """fills out.violations / out.disagreements / out.count; returns the coverage dict for the evidence"""
+def fs_of_jail(root, dump):
+    """the jail (and the chain of directories above it) as the model's file system: walked WITHOUT following
+    links; a regular file carries its size and, when ast.parse(bytes) succeeds, the reflective dump"""
+    import ast
+    ent = []
+    p = os.path.dirname(root)
+    anc = []
+    while p != "/":
+        anc.append(p)
+        p = os.path.dirname(p)
+    for a in reversed(anc):
+        ent.append([a, "d"])
+    ent.append([root, "d"])
+    for d, dirs, files in os.walk(root):
+        for n in sorted(dirs + files):
+            q = os.path.join(d, n)
+            st = os.lstat(q)
+            if stat.S_ISLNK(st.st_mode):
+                ent.append([q, "l", os.readlink(q)])
+            elif stat.S_ISDIR(st.st_mode):
+                ent.append([q, "d"])
+            elif stat.S_ISREG(st.st_mode):
+                tree = []
+                if st.st_size <= 200_000:
+                    with open(q, "rb") as f:
+                        data = f.read()
+                    try:
+                        with warnings.catch_warnings():
+                            warnings.simplefilter("ignore")
+                            tree = [dump(ast.parse(data))]
+                    except (SyntaxError, ValueError):
+                        tree = []
+                ent.append([q, "f", str(st.st_size), tree])
+            else:
+                ent.append([q, "o"])
+    return ent
+
+
+class FsModel:
+    """calls of the PyEnv entry points: the file system of a jail is encoded once (lib.enc is per character),
+    the request line is assembled around it; no oracle is involved in these entries"""
+
+    def __init__(self, proxy):
+        from . import lib
+        self.lib, self.proxy = lib, proxy
+        self.last_request = None
+
+    def call(self, cmd, fs_text, *args):
+        lib = self.lib
+        text = "(" + " ".join([lib.enc(cmd), fs_text] + [lib.enc(a) for a in args]) + ")" if fs_text is not None \
+            else lib.enc([cmd] + list(args))
+        self.last_request = text
+        p = self.proxy.m.p
+        p.stdin.write(text + "\n")
+        p.stdin.flush()
+        line = p.stdout.readline().rstrip("\n")
+        if not line.startswith("="):
+            raise lib.ModelError(f"model error: {line[:200]}")
+        return lib.dec(line[1:])
+
+
+PROBE = b'import sys\nprint("SP0:" + sys.path[0])\n'
+
+
+def run_env(out, H, AN, cfg, scratch_root, tier, rng, replay=None, model=None, dump=None, decoy="/", xcheck=None, workers=8):
+    """fills out.violations / out.disagreements / out.count; returns the coverage dict for the evidence.
+    The thousands of small jails live on tmpfs when there is one (creating and removing them on the disk of
+    this sandbox costs a millisecond per file), in their own mkdtemp directory, removed here."""
+    import tempfile
+    shm = "/dev/shm" if os.path.isdir("/dev/shm") and os.access("/dev/shm", os.W_OK | os.X_OK) else None
+    jroot = tempfile.mkdtemp(prefix="dippy-verif-", dir=shm)
+    try:
+        return _run_env(out, H, AN, cfg, jroot, tier, rng, replay, model, dump, decoy, xcheck, workers)
+    finally:
+        subprocess.run(["rm", "-rf", jroot], check=False)
+        shutil.rmtree(jroot, ignore_errors=True)
+
+
+def _run_env(out, H, AN, cfg, scratch_root, tier, rng, replay, model, dump, decoy, xcheck, workers):
     cov = {}
+    import time as _time
+    t0 = _time.time()
+    tm = cov.setdefault("timing_s", {})
+
+    def lap(name):
+        tm[name] = round(_time.time() - t0 - sum(tm.values()), 1)
     bindir = os.path.join(scratch_root, "envbin")
     os.makedirs(bindir, exist_ok=True)
     for n in ("python3", "python", "python3.12"):
@@ -671,6 +754,7 @@ def run_env(out, H, AN, cfg, scratch_root, tier, rng, replay=None, model_classif
                  + gen_mcal(tier, cal_deps) + gen_prefix(tier) + gen_expand(tier))
         shared = {"paths": gen_paths(tier)}
 
+    lap("discovery_and_generation")
     # ---- build + decide (sequential: the analysis is pure Python), then run the approved ones in parallel
     for c in cases:
         root = os.path.join(jails, f"{next(counter):06d}")
@@ -689,8 +773,10 @@ def run_env(out, H, AN, cfg, scratch_root, tier, rng, replay=None, model_classif
             finalize(c, path_roots[0])
             c.decision = decide(AN, cfg, c.cmd, os.path.join(path_roots[0], c.cwd))
 
+    lap("build_jails_and_analyse")
     with cf.ThreadPoolExecutor(max_workers=workers) as ex:
         list(ex.map(lambda c: run_real(c, bindir), [c for c in cases if c.decision == "allow"]))
+    lap("real_runs")
 
     # paths: same real path => same verdict (metamorphic); a few spellings of every approved group run for real
     groups = {}
@@ -778,25 +864,149 @@ def run_env(out, H, AN, cfg, scratch_root, tier, rng, replay=None, model_classif
         })
     cov["families"] = fam_cov
 
-    # ---- correspondence with the model
-    if model_classify is not None:
-        n = 0
-        for c in cases + path_cases:
+    lap("paths_and_judging")
+    # ---- correspondence with the model over the modelled file system (Entry/PyEnvE.v)
+    if model is not None and dump is not None:
+        n_cls = n_rp = n_st = n_an = n_sp = n_skipped_loop = 0
+        fs_cache = {}
+        fm = FsModel(model)
+        from . import lib as _lib
+
+        def fs_of(c):
+            """(entries, encoded text)"""
+            if c.root not in fs_cache:
+                ent = fs_of_jail(c.root, dump)
+                fs_cache[c.root] = (ent, _lib.enc(ent))
+            return fs_cache[c.root]
+
+        def impl_classify(tokens, cwd):
+            try:
+                with warnings.catch_warnings():
+                    warnings.simplefilter("ignore")
+                    return H.classify(_ctx(tokens, cwd)).action
+            except RuntimeError:
+                return "exn"          # Path.resolve: symlink loop
+            except Exception as e:  # noqa: BLE001
+                return "exn:" + type(e).__name__
+
+        def disagree(name, c, **kw):
+            out.disagreements.append({"correspondence": name, "family": c.family, "dims": c.dims, "cwd": c.cwd,
+                                      "ops": c.record()["ops"] if c.family != "paths" else "PATH_LAYOUT (harness/c17_env.py)",
+                                      **{k: (v.replace(c.root, "{R}") if isinstance(v, str) else v) for k, v in kw.items()}})
+
+        # effects of the real runs (canaries, __pycache__) must not leak into the modelled file system
+        for c in cases:
+            for e in c.effects or []:
+                pth = os.path.join(c.root, e)
+                if os.path.isdir(pth) and not os.path.islink(pth):
+                    shutil.rmtree(pth, ignore_errors=True)
+                elif os.path.lexists(pth):
+                    os.unlink(pth)
+        if path_cases:
+            for c in path_cases:   # all judged against the first copy of the shared layout
+                if c.root != path_roots[0]:
+                    c.tokens = [t.replace(c.root, path_roots[0]) for t in c.tokens]
+                    c.cmd = c.cmd.replace(c.root, path_roots[0])
+                    c.root = path_roots[0]
+        seen_files = set()
+        for idx, c in enumerate(cases + path_cases):
             if not c.tokens or c.family in ("prefix", "expand"):
                 continue
-            try:
-                impl = H.classify(_ctx(c.tokens, os.path.join(c.root, c.cwd))).action
-            except RuntimeError:
-                impl = "exn"
-            except Exception as e:  # noqa: BLE001
-                impl = "exn:" + type(e).__name__
-            mv = model_classify(c)
-            n += 1
+            fs, fst = fs_of(c)
+            cwd = os.path.join(c.root, c.cwd)
+            # Python's realpath, after meeting a symlink loop, returns the loop link + the unread rest, normalised
+            # lexically, and Path.resolve raises only if THAT still loops; the model answers "raises" as soon as a
+            # loop is met.  Tokens that go on after a looping component are therefore left to the model-free oracles.
+            comps_ = [x for x in c.tokens[1].split("/") if x]
+            if c.family == "paths" and any(x in ("loop.py",) for x in comps_[:-1]):
+                n_skipped_loop += 1
+                continue
+            # (a) classify
+            impl = impl_classify(c.tokens, cwd)
+            rec = xcheck is not None and len(xcheck) < 60 and idx % 211 == 5 and c.family != "paths" and len(fst) < 6000
+            mv = fm.call("py_fs_classify", fst, [cwd], decoy, c.tokens)
+            if rec and mv is not None:
+                xcheck.append((fm.last_request, [], mv))
+            n_cls += 1
             if mv is not None and mv != impl:
-                out.disagreements.append({"correspondence": "PyArgs/PyEnv classify <-> python.classify (environment stream)", "family": c.family, "dims": c.dims,
-                                          "tokens": [t.replace(c.root, "{R}") for t in c.tokens], "cwd": c.cwd, "model": mv, "impl": impl,
-                                          "ops": c.record()["ops"] if c.family != "paths" else "PATH_LAYOUT"})
-        cov["model_correspondence_cases"] = n
+                disagree("PyEnv.classify_fs <-> python.classify", c, tokens=c.tokens, model=mv, impl=impl)
+            if c.family == "paths" or (c.family == "access" and c.dims.get("nb") == "none"):
+                tok = c.tokens[1]
+                joined = tok if os.path.isabs(tok) else cwd + "/" + tok
+                # (b) Path.resolve
+                try:
+                    ir = [str(Path(joined).resolve())]
+                except RuntimeError:
+                    ir = []
+                mr = fm.call("py_fs_realpath", fst, joined)
+                n_rp += 1
+                if mr is not None and mr != ir:
+                    disagree("PyEnv.realpath <-> Path.resolve", c, path=joined, model=mr, impl=ir)
+                # (c) the kernel's walk (os.stat), on the path as typed; a trailing slash is not a component
+                if not joined.endswith("/"):
+                    try:
+                        m = os.stat(joined).st_mode
+                        ik = "file" if stat.S_ISREG(m) else "dir" if stat.S_ISDIR(m) else "other"
+                    except OSError:
+                        ik = "none"
+                    mk = fm.call("py_fs_stat", fst, joined)
+                    n_st += 1
+                    if mk is not None and mk != ik:
+                        disagree("PyEnv.stat <-> os.stat", c, path=joined, model=mk, impl=ik)
+            # (d) analyze_python_file on every non-directory entry of the layout, as typed and through links
+            if c.root not in seen_files and c.family in ("access", "paths", "mcal"):
+                seen_files.add(c.root)
+                for e in fs:
+                    if e[1] == "d" or not e[0].startswith(c.root):
+                        continue
+                    with warnings.catch_warnings():
+                        warnings.simplefilter("ignore")
+                        ia = bool(H.analyze_python_file(Path(e[0]))[0])
+                    ma = fm.call("py_fs_analyze", fst, e[0])
+                    n_an += 1
+                    if ma is not None and (ma == "1") != ia:
+                        disagree("PyEnv.analyze_path <-> analyze_python_file", c, path=e[0], model=ma, impl=ia)
+        # (e) the specification py_syspath0 against the real interpreter: same layouts, every script replaced by a probe
+        probe_cases = [c for c in cases if c.family == "access" and c.dims.get("nb") == "none"] + path_cases[::max(1, len(path_cases) // 150)]
+        if path_cases:
+            pr = os.path.join(jails, "paths-probe")
+            build(pr, [(o[0], o[1], PROBE) if o[0] == "f" and o[1].endswith((".py", ".pyw")) and b"CANARY" not in o[2] else o for o in PATH_LAYOUT], so_bytes)
+        for c in probe_cases:
+            if c.family == "paths":
+                root2 = pr
+            else:
+                root2 = c.root + "-probe"
+                build(root2, [(o[0], o[1], PROBE) if o[0] == "f" and b"RAN:script" in o[2] else o for o in c.ops], so_bytes)
+            toks2 = [t.replace(c.root, root2) for t in c.tokens]
+            try:
+                p = subprocess.run([PY] + toks2[1:], cwd=os.path.join(root2, c.cwd), stdin=subprocess.DEVNULL, capture_output=True, timeout=8,
+                                   env={"PATH": "/usr/bin:/bin", "HOME": os.path.join(root2, "home"), "LANG": "C.UTF-8"})
+                m = re.search(r"^SP0:(.*)$", p.stdout.decode("utf-8", "replace"), flags=re.M)
+            except subprocess.TimeoutExpired:
+                m = None
+            if not m:
+                continue
+            ms = fm.call("py_fs_syspath0", fs_of(c)[1], os.path.join(c.root, c.cwd), c.tokens)
+            n_sp += 1
+            want = ["dir", m.group(1).replace(root2, c.root)]
+            if ms is not None and ms != want:
+                disagree("py_syspath0 (specification) <-> sys.path[0] of /venv/bin/python", c, tokens=c.tokens, model=ms, impl=want)
+        # (f) Path.suffix test, exhaustively over a small alphabet
+        n_sx = 0
+        for k in range(0, 5 if tier == "quick" else 7):
+            for t in itertools.product(".pywx", repeat=k):
+                name = "".join(t)
+                if "/" in name or name in ("", ".", ".."):
+                    continue
+                isx = Path("/d/" + name).suffix in (".py", ".pyw")
+                msx = fm.call("py_suffix_ok", None, name)
+                n_sx += 1
+                if msx is not None and (msx == "1") != isx:
+                    out.disagreements.append({"correspondence": "PyEnv.suffix_ok <-> Path.suffix in ('.py', '.pyw')", "name": name, "model": msx, "impl": isx})
+        lap("model_correspondence")
+        cov["model_correspondence"] = {"classify_fs": n_cls, "realpath": n_rp, "os_stat": n_st, "analyze_python_file": n_an,
+                                       "syspath0_spec_vs_cpython": n_sp, "suffix": n_sx,
+                                       "tokens_continuing_after_a_symlink_loop_left_to_the_oracles": n_skipped_loop}
     return cov
 
 
